@@ -47,6 +47,7 @@ type spPod struct {
 	nc      int
 	use     int64
 	hasDir  bool
+	hadDir  bool // its cgroup existed once: a removed pod cgroup (terminated pod) never comes back under the same path
 	visible bool // reported by the informer
 	obj     *corev1.Pod
 	meta    *statesinformer.PodMeta
@@ -480,9 +481,9 @@ func (s *spSim) hook(real resourceexecutor.UpdateFunc) resourceexecutor.UpdateFu
 func (s *spSim) appearDir() {
 	for _, id := range s.podIDs() {
 		p := s.pods[id]
-		if p.kube == "BestEffort" && !p.hasDir && p.visible {
+		if p.kube == "BestEffort" && !p.hasDir && !p.hadDir && p.visible {
 			s.mkPodDirs(p.meta.CgroupDir, s.containerIDs(p))
-			p.hasDir = true
+			p.hasDir, p.hadDir = true, true
 			s.r.Event("BE pod dir of pod %d appeared", p.id)
 			return
 		}
